@@ -19,6 +19,7 @@ class NetStream:
     arrived: object = None      # bytes delivered when the call starts (None: everything); the rest follows in one piece as soon as a blocking read waits for it
     eof: bool = True            # the peer shuts its side down after the script (False: it stays silent)
     nonblocking: bool = False
+    cuts: tuple = ()            # HTTP models: absolute offsets at which one read() on the raw stream stops (read segmentation); () = all at once
 
 
 def load_enum_decls(src_dir):
